@@ -6,7 +6,7 @@ from .C01 import alloc_ops_from, rand_mode
 THEOREMS = [
     "Lou.Alloc.alloc_capacity", "Lou.C02.composeBackLoop_inlen", "Lou.C02.backRun_inv",
     "Lou.C02.driver_back_safe", "Lou.C02.backPassAccesses_ok",
-            "Lou.BackOK.translate_contract", "Lou.ModelEngine.modelEngineBack_ok", "Lou.ModelEngine.model_driver_back_safe",
+            "Lou.BackOK.translate_contract", "Lou.ModelEngine.modelEngineBack_ok", "Lou.ModelEngine.model_driver_back_safe", "Lou.ModelEngine.whole_call_back_safe",
             "Lou.ModelEngine.engineForBack_ok", "Lou.BackCOK.translateC_contract",
 ]
 
